@@ -118,29 +118,131 @@ func oracleListed(text string) (set map[string]int, tooLong bool) {
 	return set, tooLong
 }
 
+// pslLookup is the oracle's reading of the public suffix list.  It is
+// publicsuffix.PublicSuffix with one correction.  The package computes the
+// icann result from the last node of its table that the name reaches, also when
+// that node is not a rule but only lies on the way to a longer rule; such nodes
+// count as ICANN.  So for a name that is, or lies below, an unlisted name between
+// a private rule and a longer private rule (dualstack.us-east-1.amazonaws.com
+// between us-east-1.amazonaws.com and s3.dualstack.us-east-1.amazonaws.com;
+// jelastic.vps-host.net) it returns the private rule with icann = true.  Asked
+// about the rule's own name the package ends on the rule's node and answers
+// correctly, which is what the correction uses.  (Checked against the rule list
+// of golang.org/x/net v0.32.0 for every rule, every parent of a rule and two
+// labels below each: no other difference in the suffix or the section, bar the
+// ruleless TLD "za", which has no dot and so never matters here.)
+func pslLookup(name string) (suf string, icann bool) {
+	suf, icann = publicsuffix.PublicSuffix(name)
+	if icann && isPrivateRuleName(suf) {
+		icann = false
+	}
+
+	return suf, icann
+}
+
+// isPrivateRuleName: the list, asked about name itself, says name is a public
+// suffix of the private section (an unmanaged TLD has no dot).
+func isPrivateRuleName(name string) bool {
+	if !strings.Contains(name, ".") {
+		return false
+	}
+	s, icann := publicsuffix.PublicSuffix(name)
+
+	return !icann && s == name
+}
+
+// lookupFunc is pslLookup or, to reconstruct what the code under test can see,
+// publicsuffix.PublicSuffix.
+type lookupFunc func(name string) (suf string, icann bool)
+
 // oracleICANNSuffix returns the ICANN public suffix of host according to the
 // public suffix list, if it has one.
-func oracleICANNSuffix(host string) (suf string, ok bool) {
-	suf, ok = publicsuffix.PublicSuffix(host)
+func oracleICANNSuffix(host string, lookup lookupFunc) (suf string, ok bool) {
+	suf, ok = lookup(host)
 	for !ok {
 		i := strings.IndexByte(suf, '.')
 		if i < 0 {
 			return "", false
 		}
-		suf, ok = publicsuffix.PublicSuffix(suf[i+1:])
+		suf, ok = lookup(suf[i+1:])
 	}
 
 	return suf, true
 }
 
+// oracleICANNSuffixByParents is a second definition of the same thing that
+// does not follow the private suffixes at all: drop labels of the host itself
+// until the public suffix list answers with an ICANN rule.  (A private rule
+// only wins over the ICANN rule matching the same name while the name has more
+// labels than the ICANN rule, so the first ICANN answer on the way up is the
+// answer of the ICANN section alone.)  The two definitions are compared on
+// every well-formed host; the code under test resembles only the first.
+func oracleICANNSuffixByParents(host string) (suf string, ok bool) {
+	for _, t := range suffixesOf(host) {
+		if s, icann := pslLookup(t); icann {
+			return s, true
+		}
+	}
+
+	return "", false
+}
+
+// suffixShape describes how the public suffix list sees host; it is used for
+// coverage accounting and signatures only, never for a verdict.
+type suffixShape struct {
+	// hops is the number of private rules between the host and its ICANN
+	// suffix: 0 for example.com, 1 for foo.blogspot.com, 2 for
+	// x.go.dyndns.org (go.dyndns.org and dyndns.org are both private rules).
+	hops int
+	// gap: some private rule on the way is not the direct parent of the
+	// previous one (x.w.r.appspot.com: *.r.appspot.com, then appspot.com).
+	gap bool
+	// icannLabels is the number of labels of the ICANN suffix, 0 if none.
+	icannLabels int
+}
+
+func shapeOf(host string) (sh suffixShape) {
+	suf, icann := pslLookup(host)
+	for !icann {
+		sh.hops++
+		i := strings.IndexByte(suf, '.')
+		if i < 0 {
+			// Not a rule at all: the implicit "*" of an unmanaged TLD.
+			return suffixShape{}
+		}
+		parent := suf[i+1:]
+		suf, icann = pslLookup(parent)
+		if !icann && suf != parent {
+			sh.gap = true
+		}
+	}
+	sh.icannLabels = len(strings.Split(suf, "."))
+
+	return sh
+}
+
+func (sh suffixShape) String() string {
+	g := ""
+	if sh.gap {
+		g = "+gap"
+	}
+
+	return fmt.Sprintf("private-hops=%d%s/icann-labels=%d", min(sh.hops, 3), g, min(sh.icannLabels, 3))
+}
+
 // oracleCandidates: the host and its parents, at most four labels, strictly
 // below the ICANN public suffix; longest first.
 func oracleCandidates(host string) (cands []string) {
+	return oracleCandidatesWith(host, pslLookup)
+}
+
+// oracleCandidatesWith is oracleCandidates over another reading of the list.
+func oracleCandidatesWith(host string, lookup lookupFunc) (cands []string) {
 	if host == "" {
 		return nil
 	}
 	labels := strings.Split(host, ".")
-	suf, hasSuf := oracleICANNSuffix(host)
+	suf, hasSuf := oracleICANNSuffix(host, lookup)
 	sufLabels := len(strings.Split(suf, "."))
 	for k := min(4, len(labels)); k >= 1; k-- {
 		if hasSuf && k <= sufLabels {
@@ -328,7 +430,7 @@ func (c *runner) flagsNeeded(kind string) []string {
 		return []string{"filter.matched", "filter.none", "matches.true", "matches.false"}
 	case "txt":
 		return []string{"txt.answer"}
-	case "boundary":
+	case "boundary", "suffixrule":
 		return []string{"filter.matched", "filter.none"}
 	default:
 		return nil
@@ -520,22 +622,79 @@ func (c *runner) emitPS(host string) {
 	}
 }
 
+// sigInteriorName is the signature of the recorded finding: a private rule that
+// the package reports with icann = true (see pslLookup) is taken for the ICANN
+// suffix, so it and its parents below the real ICANN suffix are not looked up.
+const sigInteriorName = "private-rule-reported-icann-parents-not-hashed"
+
 func (c *runner) opSubs(host string) {
 	c.emitPS(host)
 	got := hashprefix.VerifC11HashableSubdomains(host)
 	want := oracleCandidates(host)
+	c.checkSuffixDefs(host)
+	wantRaw := oracleCandidatesWith(host, publicsuffix.PublicSuffix)
+	quirk := strings.Join(dropEmpty(want), " ") != strings.Join(dropEmpty(wantRaw), " ")
+	if quirk {
+		c.flag("psl.private_rule_reported_icann")
+	}
 	// The empty name can never be listed; ignore it on both sides.
-	if strings.Join(dropEmpty(got), " ") != strings.Join(dropEmpty(want), " ") {
+	if g, w := dropEmpty(got), dropEmpty(want); strings.Join(g, " ") != strings.Join(w, " ") {
 		sig := "hashable-subdomains-wrong"
-		if _, ok := oracleICANNSuffix(host); ok {
-			if s, icann := publicsuffix.PublicSuffix(host); !icann && s != "" {
-				sig = "private-suffix-hashes-public-suffix"
+		if _, ok := oracleICANNSuffix(host, pslLookup); ok {
+			if s, icann := pslLookup(host); !icann && s != "" {
+				switch {
+				case quirk && strings.Join(g, " ") == strings.Join(dropEmpty(wantRaw), " "):
+					// Exactly what follows from believing the icann result of
+					// the package where pslLookup does not; nothing else gets
+					// this signature.
+					sig = sigInteriorName
+				case len(g) < len(w) && shapeOf(host).hops >= 2:
+					sig = "nested-private-suffix-parent-not-hashed"
+				case len(g) < len(w):
+					sig = "private-suffix-parent-not-hashed"
+				default:
+					sig = "private-suffix-hashes-public-suffix"
+				}
 			}
 		}
 		c.r.Violate(sig, fmt.Sprintf("hashableSubdomains(%q) = %q, property says %q", host, got, want), c.replayWith("subs", host))
 	}
 	c.r.Count(fmt.Sprintf("subs.len=%d", len(got)))
+	if validQName(host) {
+		c.r.Count("subs.shape:" + shapeOf(host).String())
+	}
 	c.add("subs "+hx(host), hxList(got), -1)
+}
+
+// checkSuffixDefs compares the two definitions of "the ICANN public suffix of
+// host" the oracle has.  A difference is a defect of the oracle (or of the
+// public suffix package), not of the code under test.
+func (c *runner) checkSuffixDefs(host string) {
+	if !validQName(host) {
+		return
+	}
+	s1, ok1 := oracleICANNSuffix(host, pslLookup)
+	s2, ok2 := oracleICANNSuffixByParents(host)
+	if s1 != s2 || ok1 != ok2 {
+		c.r.Disagree("oracle-icann-suffix-definitions-differ",
+			fmt.Sprintf("host %q: via private suffixes %q/%v, via the host's parents %q/%v", host, s1, ok1, s2, ok2), nil)
+	}
+}
+
+// isPrivateSuffixName: name is an entry of the private section of the public
+// suffix list (an unmanaged TLD is not an entry of anything).
+func isPrivateSuffixName(name string) bool {
+	return validQName(name) && isPrivateRuleName(name)
+}
+
+func slicesContains(l []string, x string) bool {
+	for _, s := range l {
+		if s == x {
+			return true
+		}
+	}
+
+	return false
 }
 
 func dropEmpty(l []string) (o []string) {
@@ -603,6 +762,12 @@ func (c *runner) opFilter(i int, host string, qt uint16) {
 		}
 	}
 	want := filterable && len(listedCand) > 0
+	wantRaw := false
+	for _, s := range oracleCandidatesWith(host, publicsuffix.PublicSuffix) {
+		if _, ok := c.e.listed[i][s]; ok && s != "" && filterable {
+			wantRaw = true
+		}
+	}
 	if matched && !want {
 		sig := "filter-matched-without-listed-parent"
 		if !filterable {
@@ -617,14 +782,42 @@ func (c *runner) opFilter(i int, host string, qt uint16) {
 		c.r.Violate(sig, fmt.Sprintf("host %q qtype %d treated as listed (rule %q) on list %d, but no parent of at most four labels below the public suffix is listed",
 			host, qt, rule, i), c.replayWith("filter", i, host, qt))
 	} else if !matched && want && ferr == nil {
-		c.r.Violate("filter-missed-listed-parent", fmt.Sprintf("host %q qtype %d not treated as listed on list %d although %q is listed",
+		sig := "filter-missed-listed-parent"
+		if !wantRaw {
+			sig = sigInteriorName
+		}
+		for _, lc := range listedCand {
+			if !wantRaw {
+				break
+			}
+			if isPrivateSuffixName(lc) {
+				// The listed name is itself an entry of the private section:
+				// a registrable domain (dyndns.org, blogspot.com) that its
+				// owner offers sub-registrations under.
+				sig = "filter-missed-listed-private-suffix-domain"
+			}
+		}
+		c.r.Violate(sig, fmt.Sprintf("host %q qtype %d not treated as listed on list %d although %q is listed",
 			host, qt, i, listedCand), c.replayWith("filter", i, host, qt))
+	}
+	if matched && want && !slicesContains(listedCand, rule) {
+		c.r.Violate("filter-rule-not-a-listed-parent", fmt.Sprintf("host %q qtype %d on list %d: reported rule %q is not one of the listed parents %q",
+			host, qt, i, rule, listedCand), c.replayWith("filter", i, host, qt))
 	}
 	real := "none"
 	switch {
 	case matched:
 		real = "rule " + hx(rule)
 		c.flag("filter.matched")
+		if isPrivateSuffixName(rule) {
+			c.flag("filter.matched_by_private_suffix_domain")
+			if ps, icann := pslLookup(host); !icann && strings.HasSuffix(ps, "."+rule) {
+				// The host's own public suffix is a longer private rule
+				// registered below the listed one (go.dyndns.org below
+				// dyndns.org).
+				c.flag("filter.matched_by_outer_private_suffix_domain")
+			}
+		}
 	case !filterable:
 		c.flag("filter.unfilterable")
 	default:
@@ -788,12 +981,49 @@ var bases = []string{
 	"example.com", "test.co.uk", "foo.blogspot.com", "bucket.s3.amazonaws.com", "city.kawasaki.jp",
 	"x.y.kawasaki.jp", "school.pvt.k12.ma.us", "host.lan", "com", "co.uk", "blogspot.com", "lan",
 	"example.org", "github.io", "user.github.io", "a.b.c.compute.amazonaws.com", "kawasaki.jp", "k12.ma.us",
+	// Private rules below private rules, below a two-label ICANN suffix, and of
+	// five labels (see suffixRules).
+	"go.dyndns.org", "w.r.appspot.com", "foo.blogspot.co.uk", "functions.fnc.fr-par.scw.cloud",
+}
+
+// suffixRules are names of rules of the PRIVATE section of the public suffix
+// list ("w" stands for the label under a wildcard rule), chosen by the shape of
+// what lies between them and their ICANN suffix.  Nothing below relies on a
+// particular entry still being in the list: every host is classified with
+// shapeOf at run time, the shapes reached are counted, and main complains when
+// a whole class has gone.
+var suffixRules = []string{
+	// A private rule registered below another private rule.
+	"go.dyndns.org", "home.dyndns.org", "us-east-1.elasticbeanstalk.com", "dev.static.land", "ap.ngrok.io",
+	"fr.eu.org", "a.run.app", "1.azurestaticapps.net", "id.repl.co", "dyn.ddnss.de", "localhost.daplie.me", "d.gv.vc",
+	"storage.yandexcloud.net", "service.gov.scot", "eu.pythonanywhere.com", "mock.pstmn.io",
+	// The same with a wildcard inner rule, with and without an unlisted name
+	// between the two rules.
+	"w.r.appspot.com", "w.dev.adobeaemcloud.com", "w.hosting.myjino.ru", "w.sys.qcx.io", "w.oci.customer-oci.com",
+	"w.bzz.dapps.earth", "w.svc.firenet.ch", "w.ex.futurecms.at",
+	// Nested rules of four and five labels: the four-label cut falls inside.
+	"functions.fnc.fr-par.scw.cloud", "nodes.k8s.nl-ams.scw.cloud", "analytics-gateway.us-east-1.amazonaws.com",
+	// A single private rule below an ICANN suffix of two labels.
+	"blogspot.co.uk", "blogspot.com.au", "blogspot.co.za", "cn-north-1.eb.amazonaws.com.cn", "w.compute.amazonaws.com.cn",
+	// Private rules with an unlisted name between them and the private rule
+	// they are registered under: the parents of these are the names for which
+	// the package reports the outer private rule as ICANN (see pslLookup).
+	"atl.jelastic.vps-host.net", "vfs.cloud9.us-east-1.amazonaws.com", "webview-assets.aws-cloud9.us-east-1.amazonaws.com",
+	// A single private rule of many labels, or directly below a TLD.
+	"s3.dualstack.us-east-1.amazonaws.com", "w.elb.amazonaws.com", "uk.com", "priv.at", "co.ca", "pages.dev",
+	"cloudfront.net", "githubusercontent.com",
 }
 
 var labelPool = []string{"a", "b", "www", "x", "cdn"}
 
 func genHost(rng *rand.Rand) string {
 	h := bases[rng.IntN(len(bases))]
+	if rng.IntN(3) == 0 {
+		// A private rule or a name around it: the rule itself, the name it is
+		// registered under, hosts below either.
+		sufs := suffixesOf(suffixRules[rng.IntN(len(suffixRules))])
+		h = sufs[rng.IntN(min(2, len(sufs)))]
+	}
 	for k := rng.IntN(6); k > 0; k-- {
 		h = labelPool[rng.IntN(len(labelPool))] + "." + h
 	}
@@ -1105,6 +1335,35 @@ func boundaryCampaign(c *runner) {
 	c.r.Count("boundary.exhaustive_done")
 }
 
+// suffixRuleCampaign: for every private rule of suffixRules, the hosts at and
+// around it (the rule, its parent, one and two labels below each) against every
+// single-name list made of one of the host's own suffixes.  It is the boundary
+// grid turned towards the public suffix list instead of the label count.
+func suffixRuleCampaign(c *runner) {
+	qts := []uint16{dns.TypeA, dns.TypeHTTPS, dns.TypeTXT}
+	for _, rule := range suffixRules {
+		c.add("psclear", "ok", -1)
+		c.psSet = map[string]bool{}
+		hosts := []string{rule, "l1." + rule, "l2.l1." + rule}
+		if _, parent, ok := strings.Cut(rule, "."); ok && strings.Contains(parent, ".") {
+			hosts = append(hosts, parent, "m1."+parent)
+		}
+		for _, host := range hosts {
+			sh := shapeOf(host)
+			c.r.Count("suffixrule.host:" + sh.String())
+			c.opSubs(host)
+			for _, listedName := range suffixesOf(host) {
+				c.opReset(0, listedName+"\n")
+				for _, qt := range qts {
+					c.opFilter(0, host, qt)
+				}
+			}
+		}
+		c.finish("suffixrule")
+	}
+	c.r.Count("suffixrule.exhaustive_done")
+}
+
 // prefixCampaign: prefixesFromStr on random strings and, in the thorough
 // tier, on every string up to a length over a small alphabet.
 func prefixCampaign(c *runner, rng *rand.Rand, n int, exhaustive bool) {
@@ -1175,9 +1434,11 @@ func main() {
 	r := hlib.NewResult("C11", o)
 	r.Rule = "list: random list texts (comments, blanks, CRLF, duplicates, padded names) reset through Filter.Refresh, then " +
 		"Storage.Matches/Hashes, hashableSubdomains and Filter.FilterRequest on hosts of 1-9 labels over ICANN, private, wildcard, " +
-		"exception and unknown suffixes, compared with the Lean model and with an independent set/label oracle; txt: prefix strings " +
+		"exception and unknown suffixes and around 40 private rules (nested in another private rule, wildcard, below two-label ICANN " +
+		"suffixes, up to five labels; shapes counted as subs.shape:*), compared with the Lean model and with an independent set/label oracle; txt: prefix strings " +
 		"(valid, legacy, malformed) through Matcher.MatchByPrefix and the production middleware stack; boundary: exhaustive " +
-		"base x depth x listed-parent x qtype grid; a list case is non-trivial when it has a listed and an unlisted verdict and a " +
+		"base x depth x listed-parent x qtype grid; suffixrule: exhaustive private rule x {rule, parent, hosts below} x listed-parent " +
+		"x qtype grid; a list case is non-trivial when it has a listed and an unlisted verdict and a " +
 		"true and a false Matches; distinct = distinct op logs"
 	m := hlib.StartModel(o.Model, "C11")
 	defer m.Close()
@@ -1193,7 +1454,14 @@ func main() {
 	if o.Thorough() {
 		nList, nTxt, nPref = 20000, 10000, 40000
 	}
-	boundaryCampaign(c)
+	// Diagnostic switch for pool maintenance: leave out the exhaustive grids
+	// to see what the random campaigns find on their own.
+	if os.Getenv("VERIF_C11_RANDOM_ONLY") == "" {
+		boundaryCampaign(c)
+		suffixRuleCampaign(c)
+	} else {
+		r.Notes = append(r.Notes, "VERIF_C11_RANDOM_ONLY set: exhaustive grids skipped")
+	}
 	tooLongCase(c)
 	listCampaign(c, o.Rand("list"), nList)
 	txtCampaign(c, o.Rand("txt"), nTxt)
@@ -1203,6 +1471,20 @@ func main() {
 	e2 := newEnv(dir, []string{".hp.example"}, []int{2})
 	c2 := &runner{o: o, r: r, m: m, e: e2, ctx: c.ctx, flags: map[string]bool{}, psSet: map[string]bool{}}
 	txtCampaign(c2, o.Rand("txt2"), nTxt/4)
+
+	// The classes of public-suffix structure the campaigns are meant to reach.
+	// They are properties of the public suffix list, not of the code under
+	// test, so a miss means the pools need refreshing.
+	for _, need := range []string{
+		"subs.shape:private-hops=1/icann-labels=1", "subs.shape:private-hops=1/icann-labels=2",
+		"subs.shape:private-hops=2/icann-labels=1", "subs.shape:private-hops=2+gap/icann-labels=1",
+		"subs.shape:private-hops=0/icann-labels=0", "filter.matched_by_outer_private_suffix_domain",
+	} {
+		if r.Distribution[need] == 0 {
+			r.Disagree("coverage-lost:"+need, "no case reached the class "+need+
+				": the public suffix list has changed, refresh bases/suffixRules in harness/cmd/c11", nil)
+		}
+	}
 
 	r.Exhaustive = o.Thorough()
 	r.Notes = append(r.Notes, "hash order across prefixes depends on Go map iteration: hash and prefix lists are compared sorted",
